@@ -11,7 +11,16 @@ every decorator form and every call shape with distinguishable values:
      `def` that natively has the advertised signature) and with the model's
      prediction `pok_call` + `bindv` evaluated inside Coq;
  (c) the same through instance access (bound method, first parameter = self);
- (d) the value-level binder `bindv` itself is compared with real CPython calls.
+ (d) the value-level binder `bindv` itself is compared with real CPython calls;
+ (e) every call shape is run again with argument VALUES an implementation could
+     take for "not given" (None, inspect.Parameter.empty, 0, False, '', ...,
+     compared by identity): every named value None, and a random subset of the
+     arguments special;
+ (f) stacks of two / three decorators (named, start=, end=, autokwoargs layers):
+     the layers together are one selection of the original function, so a stack
+     whose layers are each admissible but together mark a parameter with both
+     kinds must raise ValueError at decoration time; admissible stacks go
+     through (a)-(c),(e) and through the model (merge_other + prepare).
 
 A mismatch impl <-> oracle/spec is a concrete violation; a mismatch with the
 model only is a correspondence break.
